@@ -1,7 +1,8 @@
 (* Model of pdb2pqr.pdb.read_pdb and the ATOM/HETATM parsers (C07), string level.
 
    Follows the code of /repo after commit 621953b (blank lines are skipped,
-   only EOF - readline() returning "" - ends the loop):
+   only EOF - readline() returning "" - ends the loop) and after the C07-F4 fix
+   (BaseRecord.record_type() is the record name of columns 1-6):
 
      read_pdb       the line loop: strip, blank skip, record name = line[0:6].strip(),
                     errlist suppression, KeyError/ValueError/IndexError handling
@@ -142,7 +143,7 @@ Definition py_float_ok (s0 : string) : bool :=
 
 Record atomrec := mkA {
   a_het : bool;        (* HETATM class (true) / ATOM class (false); later: Atom.type *)
-  a_tok0 : string;     (* record_type(): original_text.split()[0] *)
+  a_tok0 : string;     (* record_type(): original_text[0:6].strip() (since the C07-F4 fix) *)
   a_serial : Z;
   a_name : string;
   a_alt : string;
@@ -195,7 +196,7 @@ Section Parsers.
                         let y := strip (slice 38 46 line) in
                         let z := strip (slice 46 54 line) in
                         if fok x && fok y && fok z then
-                          POk (mkA het (first_token line) serial name (char_field c16) resname
+                          POk (mkA het (rec_name line) serial name (char_field c16) resname
                                    (char_field c21) resseq (char_field c26) x y z src)
                         else PVal
                     end
